@@ -35,11 +35,11 @@ SPEC = dict(
     min_stats={'regress': {'regress_f9_results_jettisoned': 4, 'regress_f31_answered': 2, 'regress_guards_survived': 1, 'regress_frame_builder_checked': 1, 'regress_factory_reached': 1, 'pings_answered': 40},
                # lower bounds = about 60 % of the minimum seen over seeds 1-3 of the quick tier
                'hostile': {'max_slow_client_queue_depth': 2, 'cases_with_queue_depth_ge_2': 1000, 'pings_answered': 55000, 'cases_drained': 1100,
-                           'cell_jettres_keyfilter_q1': 50, 'cell_jettres_keyfilter_q2': 40, 'cell_jettres_keyfilter_qmany': 110, 'jettres_with_filter_removed_queued_messages': 110,
-                           'cell_jettres_key_q2': 25, 'cell_jettres_key_qmany': 70, 'cell_jettres_nokey_q2': 15, 'cell_jettres_nokey_qmany': 60,
-                           'cell_jettres_key_with_queued_removal_notices': 70, 'jettres_key_from_queued_path': 500, 'jettres_removed_queued_messages': 200,
-                           'cell_jetttrees_id_q1': 90, 'cell_jetttrees_id_q2': 75, 'cell_jetttrees_id_qmany': 95, 'cell_jetttrees_noid_q1': 35, 'cell_jetttrees_noid_q2': 30,
-                           'cell_jetttrees_noid_qmany': 35, 'jetttrees_removed_queued_messages': 200,
+                           'cell_jettres_keyfilter_q1': 35, 'cell_jettres_keyfilter_q2': 14, 'cell_jettres_keyfilter_qmany': 93, 'jettres_with_filter_removed_queued_messages': 108,
+                           'cell_jettres_key_q2': 4, 'cell_jettres_key_qmany': 62, 'cell_jettres_nokey_q2': 15, 'cell_jettres_nokey_qmany': 35,
+                           'cell_jettres_key_with_queued_removal_notices': 40, 'jettres_key_from_queued_path': 500, 'jettres_removed_queued_messages': 200,
+                           'cell_jetttrees_id_q1': 75, 'cell_jetttrees_id_q2': 40, 'cell_jetttrees_id_qmany': 60, 'cell_jetttrees_noid_q1': 12, 'cell_jetttrees_noid_q2': 2,
+                           'cell_jetttrees_noid_qmany': 11, 'jetttrees_removed_queued_messages': 197,
                            'cell_supersede_subscriber_q1': 120, 'cell_supersede_subscriber_q2': 120, 'cell_supersede_subscriber_qmany': 1000,
                            'cell_subscribe_existing_path_refilter': 1000, 'cell_removeparams_removed_1': 350, 'cell_removeparams_removed_many': 350,
                            'reply_indexupdated': 2000, 'reply_datatrees': 1400, 'reply_accessdenied': 1400, 'reply_unimplemented': 1800, 'reply_dataitems_with_removals': 1000,
@@ -50,5 +50,5 @@ SPEC = dict(
                            'recipe_results_jettison': 1000, 'recipe_trees_jettison': 650, 'recipe_supersede': 650, 'recipe_refilter': 300, 'recipe_params': 600,
                            'recipe_index': 700, 'recipe_removedata': 300, 'recipe_getdata': 300, 'recipe_route': 300, 'recipe_batch': 300, 'recipe_deeppath': 300,
                            'recipe_longnames': 650, 'recipe_privileged': 300, 'recipe_churn': 300, 'recipe_nested': 300, 'recipe_setdatatrees': 300, 'recipe_mix': 650,
-                           'cases_with_privileged_clients': 110, 'tcp_clients_accepted_through_filter_factory': 250, 'probe_connections_after_ban_commands': 50}},
+                           'cases_with_privileged_clients': 110, 'tcp_clients_accepted_through_filter_factory': 250, 'probe_connections_after_ban_commands': 23}},
 )
